@@ -61,6 +61,8 @@ pub enum TypeErrorEnum {
     MissingStructField(String, String),
     /// The struct constructor or struct pattern specifies the same field more than once.
     DuplicateStructField(String, String),
+    /// The enum declares the same variant more than once.
+    DuplicateEnumVariant(String, String),
     /// No enum declaration with the specified name exists.
     UnknownEnum(String, String),
     /// The enum exists, but no variant declaration with the specified name was found.
@@ -156,6 +158,9 @@ impl std::fmt::Display for TypeErrorEnum {
             ),
             TypeErrorEnum::DuplicateStructField(struct_name, struct_field) => f.write_fmt(
                 format_args!("Field '{struct_field}' is specified more than once for struct '{struct_name}'"),
+            ),
+            TypeErrorEnum::DuplicateEnumVariant(enum_name, enum_variant) => f.write_fmt(
+                format_args!("Variant '{enum_variant}' is declared more than once for enum '{enum_name}'"),
             ),
             TypeErrorEnum::UnknownEnum(enum_name, enum_variant) => {
                 f.write_fmt(format_args!("Unknown enum '{enum_name}::{enum_variant}'"))
@@ -574,7 +579,13 @@ impl UntypedProgram {
         for (enum_name, enum_def) in self.enum_defs.iter() {
             let meta = enum_def.meta;
             let mut variants = Vec::with_capacity(enum_def.variants.len());
-            for variant in enum_def.variants.iter() {
+            for (i, variant) in enum_def.variants.iter().enumerate() {
+                let earlier = &enum_def.variants[..i];
+                if earlier.iter().any(|v| v.variant_name() == variant.variant_name()) {
+                    let variant_name = variant.variant_name().to_string();
+                    let e = TypeErrorEnum::DuplicateEnumVariant(enum_name.clone(), variant_name);
+                    errors.push(Some(TypeError::new(e, meta)));
+                }
                 variants.push(match variant {
                     Variant::Unit(variant_name) => Variant::Unit(variant_name.clone()),
                     Variant::Tuple(variant_name, variant_fields) => {
@@ -1810,6 +1821,7 @@ impl UntypedPattern {
             PatternEnum::NumUnsigned(n, suffix) => {
                 if let Some(ty) = &ty {
                     expect_num_type(ty, meta)?;
+                    expect_pattern_suffix(ty, Type::Unsigned(*suffix), meta)?;
                     expect_pattern_in_range(ty, *n as i128, *n as i128, meta)?;
                     PatternEnum::NumUnsigned(*n, *suffix)
                 } else {
@@ -1819,6 +1831,7 @@ impl UntypedPattern {
             PatternEnum::NumSigned(n, suffix) => {
                 if let Some(ty) = &ty {
                     expect_signed_num_type(ty, meta)?;
+                    expect_pattern_suffix(ty, Type::Signed(*suffix), meta)?;
                     expect_pattern_in_range(ty, *n as i128, *n as i128, meta)?;
                     PatternEnum::NumSigned(*n, *suffix)
                 } else {
@@ -1828,6 +1841,7 @@ impl UntypedPattern {
             PatternEnum::UnsignedInclusiveRange(from, to, suffix) => {
                 if let Some(ty) = &ty {
                     expect_num_type(ty, meta)?;
+                    expect_pattern_suffix(ty, Type::Unsigned(*suffix), meta)?;
                     expect_pattern_in_range(ty, *from as i128, *to as i128, meta)?;
                     PatternEnum::UnsignedInclusiveRange(*from, *to, *suffix)
                 } else {
@@ -1837,6 +1851,7 @@ impl UntypedPattern {
             PatternEnum::SignedInclusiveRange(from, to, suffix) => {
                 if let Some(ty) = &ty {
                     expect_signed_num_type(ty, meta)?;
+                    expect_pattern_suffix(ty, Type::Signed(*suffix), meta)?;
                     expect_pattern_in_range(ty, *from as i128, *to as i128, meta)?;
                     PatternEnum::SignedInclusiveRange(*from, *to, *suffix)
                 } else {
@@ -2531,6 +2546,20 @@ fn expect_tuple_type(ty: &Type, meta: MetaInfo) -> Result<Vec<Type>, TypeErrors>
             TypeErrorEnum::ExpectedTupleType(ty.clone()),
             meta,
         ))]),
+    }
+}
+
+/// A number pattern with a type suffix only matches values of that type.
+fn expect_pattern_suffix(ty: &Type, suffix: Type, meta: MetaInfo) -> Result<(), TypeErrors> {
+    let is_unspecified = matches!(
+        suffix,
+        Type::Unsigned(UnsignedNumType::Unspecified) | Type::Signed(SignedNumType::Unspecified)
+    );
+    if is_unspecified || &suffix == ty {
+        Ok(())
+    } else {
+        let e = TypeErrorEnum::PatternDoesNotMatchType(ty.clone());
+        Err(vec![Some(TypeError::new(e, meta))])
     }
 }
 
